@@ -6,33 +6,35 @@ All statements are about `Model/Reuse.lean` (tied to /repo by harness/c16.cpp vs
 quantify over ALL states / histories, not over reachable samples.  `World.obs` (Spec/Reuse.lean) is what a dump prints
 in its `code|` part; `Sim a b` = `a.obs = b.obs`.
 -/
-import AsmjitVerif.Lemmas.Reuse
+import AsmjitVerif.Lemmas.ReuseStep
 namespace AsmjitVerif.Reuse
 
 /-! ### 1. the cleaning functions forget everything (every state, reachable or not) -/
 
 /-- `on_detach` (whole chain down to `BaseEmitter`) leaves an emitter that is observationally a freshly constructed one:
     no option, comment, cursor, node, label/section node, pass, virtual register or jump annotation survives. -/
-theorem detach_forgets_everything (e : Emitter) : e.onDetach.obs = ({ kind := e.kind } : Emitter).obs := by
-  cases e with | mk k _ _ _ _ _ _ _ _ _ _ _ _ _ _ _ _ _ _ _ _ _ =>
+theorem detach_forgets_everything (e : Emitter) : e.onDetach.obs = ({ kind := e.kind, fam64 := e.fam64 } : Emitter).obs := by
+  cases e with | mk k _ _ _ _ _ _ _ _ _ _ _ _ _ _ _ _ _ _ _ _ _ _ =>
   cases k <;> simp [Emitter.onDetach, Emitter.obs]
 
 /-- `on_reinit` leaves a state that depends only on what attachment fixed (kind, architecture, alignment, REX policy),
     not on anything generated before. -/
 theorem reinit_forgets_everything (e1 e2 : Emitter) (hk : e1.kind = e2.kind) (hc : e1.code = e2.code) (ha : e1.arch = e2.arch)
-    (hi : e1.instAlign = e2.instAlign) (hr : e1.invalidRex = e2.invalidRex) : e1.onReinit.obs = e2.onReinit.obs := by
-  cases e1 with | mk k1 _ _ _ _ _ _ _ _ _ _ _ _ _ _ _ _ _ _ _ _ _ =>
-  cases e2 with | mk k2 _ _ _ _ _ _ _ _ _ _ _ _ _ _ _ _ _ _ _ _ _ =>
-  simp only at hk hc ha hi hr
-  subst hk hc ha hi hr
+    (hi : e1.instAlign = e2.instAlign) (hr : e1.invalidRex = e2.invalidRex) (hf : e1.fam64 = e2.fam64) :
+    e1.onReinit.obs = e2.onReinit.obs := by
+  cases e1 with | mk k1 _ _ _ _ _ _ _ _ _ _ _ _ _ _ _ _ _ _ _ _ _ _ =>
+  cases e2 with | mk k2 _ _ _ _ _ _ _ _ _ _ _ _ _ _ _ _ _ _ _ _ _ _ =>
+  simp only at hk hc ha hi hr hf
+  subst hk hc ha hi hr hf
   cases k1 <;> simp [Emitter.onReinit, Emitter.obs]
 
 /-- … and that state is the one a brand-new emitter has right after being attached to a holder that holds only the
     empty `.text` (reinit = init + attach). -/
-theorem reinit_eq_fresh_attach (e : Emitter) (h0 : Holder) (hc : e.code = true) (ha : e.arch = h0.arch) (hi : e.instAlign = 1)
+theorem reinit_eq_fresh_attach (e : Emitter) (h0 : Holder) (hc : e.code = true) (ha : e.arch = h0.arch)
+    (hi : e.instAlign = if h0.arch == some .a64 then 4 else 1)
     (hr : e.invalidRex = (e.kind == .asm && h0.arch == some .x86)) (hs : h0.secs = [textSection]) :
-    e.onReinit.obs = (({ kind := e.kind } : Emitter).onAttach h0).obs := by
-  cases e with | mk k _ _ _ _ _ _ _ _ _ _ _ _ _ _ _ _ _ _ _ _ _ =>
+    e.onReinit.obs = (({ kind := e.kind, fam64 := e.fam64 } : Emitter).onAttach h0).obs := by
+  cases e with | mk k _ _ _ _ _ _ _ _ _ _ _ _ _ _ _ _ _ _ _ _ _ _ =>
   simp only at hc ha hi hr
   subst hc ha hi hr
   cases k <;> simp [Emitter.onReinit, Emitter.onAttach, Emitter.settingsUpdated, Emitter.updateForced, Emitter.obs, hs, textSection]
@@ -53,7 +55,7 @@ theorem reinit_holder_forgets (w : World) (hi : w.h.arch.isSome = true) :
 
 theorem applyAll_detach_getElem? (att : List Nat) : ∀ (es : List Emitter) (j : Nat),
     ((applyAll Emitter.onDetach es att)[j]?).map Emitter.obs =
-      if j ∈ att then (es[j]?).map (fun e => ({ kind := e.kind } : Emitter).obs) else (es[j]?).map Emitter.obs := by
+      if j ∈ att then (es[j]?).map (fun e => ({ kind := e.kind, fam64 := e.fam64 } : Emitter).obs) else (es[j]?).map Emitter.obs := by
   induction att with
   | nil => intro es j; simp [applyAll]
   | cons i r ih =>
@@ -66,22 +68,37 @@ theorem applyAll_detach_getElem? (att : List Nat) : ∀ (es : List Emitter) (j :
       | none => simp
       | some e =>
         have hk : e.onDetach.kind = e.kind := rfl
-        by_cases hjr : j ∈ r <;> simp [hjr, hk, detach_forgets_everything]
+        have hfm : e.onDetach.fam64 = e.fam64 := rfl
+        by_cases hjr : j ∈ r <;> simp [hjr, hk, hfm, detach_forgets_everything]
     · by_cases hjr : j ∈ r <;> simp [hji, hjr]
 
 /-- **reset = fresh.** Whatever the holder contained and whatever state its attached emitters were in, after
     `reset(soft|hard)` the world is observationally the world of freshly constructed objects — provided the emitters
     that were *not* attached at that moment are themselves clean (reset cannot and need not touch them). -/
-theorem reset_sim_fresh (w : World) (hard : Bool) (hi : w.h.arch.isSome = true)
-    (hk : w.es.map (·.kind) = World.fresh.es.map (·.kind))
-    (hd : ∀ i e, w.es[i]? = some e → i ∉ w.h.attached → e.obs = ({ kind := e.kind } : Emitter).obs) :
-    Sim (w.reset hard) World.fresh := by
+theorem reset_sim_fresh (w : World) (hard : Bool) (fam : Bool) (hi : w.h.arch.isSome = true)
+    (hk : w.es.map (fun e => (e.kind, e.fam64)) = (if fam then World.freshA64 else World.fresh).es.map (fun e => (e.kind, e.fam64)))
+    (hd : ∀ i e, w.es[i]? = some e → i ∉ w.h.attached → e.obs = ({ kind := e.kind, fam64 := e.fam64 } : Emitter).obs) :
+    Sim (w.reset hard) (if fam then World.freshA64 else World.fresh) := by
+  generalize hW0 : (if fam then World.freshA64 else World.fresh) = W0 at hk ⊢
+  have hW0es : ∀ (j : Nat) (f : Emitter), W0.es[j]? = some f → f.obs = ({ kind := f.kind, fam64 := f.fam64 } : Emitter).obs := by
+    intro j f hf
+    have hlt : j < W0.es.length := (List.getElem?_eq_some_iff.mp hf).1
+    subst hW0
+    cases fam
+    · have : j < 4 := by simpa [World.fresh] using hlt
+      match j, this with
+      | 0, _ | 1, _ | 2, _ | 3, _ => simp [World.fresh] at hf; subst hf; rfl
+    · have : j < 4 := by simpa [World.freshA64] using hlt
+      match j, this with
+      | 0, _ | 1, _ | 2, _ | 3, _ => simp [World.freshA64] at hf; subst hf; rfl
   have hn : w.h.arch.isNone = false := by cases h : w.h.arch <;> simp_all
   have hh := reset_holder_forgets w hard hi
   unfold Sim World.obs
   rw [hh]
   have hes : (w.reset hard).es = applyAll Emitter.onDetach w.es w.h.attached := by simp [World.reset, hn, detachAll]
   rw [hes]
+  have hW0h : W0.h = ({} : Holder) := by subst hW0; cases fam <;> rfl
+  rw [hW0h]
   congr 1
   apply List.ext_getElem?
   intro j
@@ -90,19 +107,13 @@ theorem reset_sim_fresh (w : World) (hard : Bool) (hi : w.h.arch.isSome = true)
   simp only [List.getElem?_map] at hkj
   rw [List.getElem?_map]
   cases hj : w.es[j]? with
-  | none => simp [hj] at hkj ⊢; cases hf : World.fresh.es[j]? <;> simp_all
+  | none => simp [hj] at hkj ⊢; cases hf : W0.es[j]? <;> simp_all
   | some e =>
-    cases hf : World.fresh.es[j]? with
+    cases hf : W0.es[j]? with
     | none => simp [hj, hf] at hkj
     | some f =>
       simp [hj, hf] at hkj
-      have hfo : f.obs = ({ kind := f.kind } : Emitter).obs := by
-        have : j < 4 := by
-          have := (List.getElem?_eq_some_iff.mp hf).1
-          simpa [World.fresh] using this
-        have hf' := hf
-        match j, this with
-        | 0, _ | 1, _ | 2, _ | 3, _ => simp [World.fresh] at hf'; subst hf'; rfl
+      have hfo := hW0es j f hf
       by_cases hja : j ∈ w.h.attached
       · simp [hja, hkj, hfo]
       · simp [hja, hd j e hj hja, hkj, hfo]
@@ -186,7 +197,7 @@ theorem logging_is_unobservable (w : World) (on : Bool) (i : Nat) :
       simp only [World.setE]
       apply updAt_obs_same _ _ e _ hi
       rw [updateForced_obs]
-      cases e with | mk k _ _ _ _ _ _ _ _ _ _ _ _ _ _ _ _ _ _ _ _ _ =>
+      cases e with | mk k _ _ _ _ _ _ _ _ _ _ _ _ _ _ _ _ _ _ _ _ _ _ =>
       cases on <;> cases k <;> simp [Emitter.obs]
   · simp only [World.step]
     cases hi : w.es[i]? with
@@ -197,7 +208,7 @@ theorem logging_is_unobservable (w : World) (on : Bool) (i : Nat) :
       simp only [World.setE]
       apply updAt_obs_same _ _ e _ hi
       rw [updateForced_obs]
-      cases e with | mk k _ _ _ _ _ _ _ _ _ _ _ _ _ _ _ _ _ _ _ _ _ =>
+      cases e with | mk k _ _ _ _ _ _ _ _ _ _ _ _ _ _ _ _ _ _ _ _ _ _ =>
       cases k <;> simp [Emitter.obs]
 
 /-! ### 4. unwinding over histories of lifecycle / configuration operations -/
@@ -234,7 +245,11 @@ theorem attach_sim (a b : World) (i : Nat) (h : Sim a b) : Sim (a.attach i).1 (b
     | some eb =>
       simp only [ha, hb, Option.map_some, Option.some.injEq] at hi
       have hcode : ea.code = eb.code := by rw [← Emitter.obs_code ea, ← Emitter.obs_code eb, hi]
-      simp only [harch, hcode]
+      have hfam : ea.fam64 = eb.fam64 := by
+        have h1 : ea.obs.fam64 = ea.fam64 := by cases ea with | mk k _ _ _ _ _ _ _ _ _ _ _ _ _ _ _ _ _ _ _ _ _ _ => cases k <;> rfl
+        have h2 : eb.obs.fam64 = eb.fam64 := by cases eb with | mk k _ _ _ _ _ _ _ _ _ _ _ _ _ _ _ _ _ _ _ _ _ _ => cases k <;> rfl
+        rw [← h1, ← h2, hi]
+      simp only [harch, hcode, hfam]
       split
       · exact ⟨h, rfl⟩
       · split
@@ -271,17 +286,12 @@ theorem detach_sim (a b : World) (i : Nat) (h : Sim a b) : Sim (a.detach i).1 (b
         simp only [Holder.mk.injEq] at this ⊢
         simp_all
 
-/-- lifecycle and configuration operations (everything except code generation proper) -/
-def Op.lifecycle : Op → Bool
-  | .world | .init _ | .reset _ | .reinit | .attach _ | .detach _ | .hlogger _ | .elogger _ _ | .diag _ _ | .dump => true
-  | _ => false
-
 /-- one lifecycle step maps indistinguishable worlds to indistinguishable worlds and gives the same answer
     (for the logger / diagnostic operations the answer is the constant "ok") -/
 theorem lifecycle_step_sim (a b : World) (op : Op) (hop : op.lifecycle = true) (h : Sim a b) :
     Sim (a.step op).1 (b.step op).1 ∧ (a.step op).2 = (b.step op).2 := by
   cases op <;> simp only [Op.lifecycle, Bool.false_eq_true] at hop
-  case world => exact ⟨rfl, rfl⟩
+  case world f => exact ⟨rfl, rfl⟩
   case init ar => exact init_sim a b ar h
   case reset hard => exact ⟨reset_sim a b hard h, rfl⟩
   case reinit => exact reinit_sim a b h
@@ -312,29 +322,64 @@ def World.trace (w : World) : List Op → List String
   | [] => []
   | op :: r => (w.step op).2 :: (w.step op).1.trace r
 
-/-
-Full-strength statement (NOT proved here): for every program `p` of arbitrary operations,
-  `Sim a b → a.trace p = b.trace p ∧ Sim (a.run p) (b.run p)`,
-hence `(w.reset hard).trace p = World.fresh.trace p` for every `w` as in `reset_sim_fresh`.
-What is missing is the unwinding lemma for the code-generation operations (label, nlabel, bind, raw, opt, cmt, jmp,
-elabel, section, switch, vreg, jann, finalize): they only read fields that `obs` keeps, but the ~15 "respects the
-observation" lemmas (incl. the recursive `resolveFixups` and `serialize`) are not written.  For those operations the
-claim is carried by the C++/Lean correspondence and by the fresh-vs-recycled monitor (tools/props/c16.py).
--/
+/-- **unwinding, every operation.** One step of ANY operation - lifecycle, configuration or code generation (labels,
+    named labels, bind with fixup resolution, raw data, jmp with one-shot options, embed_label relocations, sections,
+    Builder nodes, virtual registers, jump annotations, finalize = serialisation) - maps indistinguishable worlds to
+    indistinguishable worlds and gives the same answer. -/
+theorem step_sim (a b : World) (op : Op) (h : Sim a b) : Sim (a.step op).1 (b.step op).1 ∧ (a.step op).2 = (b.step op).2 := by
+  cases hop : op.lifecycle
+  · have ha := gen_step_resp a op hop
+    have hb := gen_step_resp b op hop
+    unfold Sim at h ⊢
+    exact ⟨by rw [ha.1, hb.1, h], by rw [ha.2, hb.2, h]⟩
+  · exact lifecycle_step_sim a b op hop h
 
-/-- **no residue across any lifecycle history (partial: lifecycle/configuration operations).** Indistinguishable worlds
-    stay indistinguishable and answer identically along every sequence of init / reset / reinit / attach / detach /
-    logger / diagnostic operations, of any length. -/
-theorem no_residue_partial (p : List Op) (hp : ∀ op ∈ p, op.lifecycle = true) :
-    ∀ (a b : World), Sim a b → a.trace p = b.trace p ∧ Sim (a.run p) (b.run p) := by
+/-- **no residue, full strength.** Along every program of any length and any mix of operations, indistinguishable
+    worlds give the same answers (label ids, section ids, error codes …) and stay indistinguishable - so every later
+    dump shows the same sections, bytes, labels, fixups, relocations and emitter state. -/
+theorem no_residue (p : List Op) : ∀ (a b : World), Sim a b → a.trace p = b.trace p ∧ Sim (a.run p) (b.run p) := by
   induction p with
   | nil => intro a b h; exact ⟨rfl, h⟩
   | cons op r ih =>
     intro a b h
-    have hs := lifecycle_step_sim a b op (hp op (by simp)) h
-    have := ih (fun o ho => hp o (by simp [ho])) _ _ hs.1
+    have hs := step_sim a b op h
+    have := ih _ _ hs.1
     simp only [World.trace, World.run]
     exact ⟨by rw [hs.2, this.1], this.2⟩
+
+/-- **generate p after a reset = generate p on fresh objects**: for ANY world (whatever its holder contains and
+    whatever state its attached emitters are in) whose unattached emitters are clean, every program run after
+    `reset(soft|hard)` answers exactly as on freshly constructed objects and ends in an indistinguishable world. -/
+theorem generate_after_reset_eq_fresh (w : World) (hard : Bool) (fam : Bool) (p : List Op) (hi : w.h.arch.isSome = true)
+    (hk : w.es.map (fun e => (e.kind, e.fam64)) = (if fam then World.freshA64 else World.fresh).es.map (fun e => (e.kind, e.fam64)))
+    (hd : ∀ i e, w.es[i]? = some e → i ∉ w.h.attached → e.obs = ({ kind := e.kind, fam64 := e.fam64 } : Emitter).obs) :
+    (w.reset hard).trace p = (if fam then World.freshA64 else World.fresh).trace p ∧
+      Sim ((w.reset hard).run p) ((if fam then World.freshA64 else World.fresh).run p) :=
+  no_residue p _ _ (reset_sim_fresh w hard fam hi hk hd)
+
+/-- **generate p after reinit = generate p on a fresh holder with the same emitters attached**: two worlds that agree
+    on what attachment fixed (environment, attachment order, emitter kinds/attachment state) but differ arbitrarily in
+    everything generated before (sections, labels, relocations, fixups, node lists, one-shot options, virtual registers,
+    annotations, loggers, retained capacity) run every program identically after `reinit`. -/
+theorem generate_after_reinit_forgets_history (a b : World) (p : List Op) (ha : a.h.arch.isSome = true)
+    (harch : a.h.arch = b.h.arch) (hatt : a.h.attached = b.h.attached)
+    (hes : (reinitAll a.es a.h.attached).map Emitter.obs = (reinitAll b.es b.h.attached).map Emitter.obs) :
+    a.reinit.1.trace p = b.reinit.1.trace p ∧ Sim (a.reinit.1.run p) (b.reinit.1.run p) := by
+  apply no_residue
+  have hb : b.h.arch.isSome = true := harch ▸ ha
+  apply sim_of_parts
+  · rw [reinit_holder_forgets a ha, reinit_holder_forgets b hb, harch, hatt]
+  · have hna : a.h.arch.isNone = false := by cases h : a.h.arch <;> simp_all
+    have hnb : b.h.arch.isNone = false := by cases h : b.h.arch <;> simp_all
+    simp only [World.reinit, hna, hnb]
+    exact hes
+
+/-- logging / validation switched at any point of any program never changes what the rest of the program produces -/
+theorem logging_never_reaches_output (w : World) (on : Bool) (i : Nat) (p : List Op) :
+    (w.step (.hlogger on)).1.trace p = w.trace p ∧ (w.step (.elogger i on)).1.trace p = w.trace p ∧
+      (w.step (.diag i on)).1.trace p = w.trace p := by
+  have h := logging_is_unobservable w on i
+  exact ⟨(no_residue p _ _ h.1).1, (no_residue p _ _ h.2.1).1, (no_residue p _ _ h.2.2).1⟩
 
 /-- the rendered `code|` part of a dump is the same for indistinguishable worlds on the holder side (sections,
     labels, relocations, counters, attachment list are read from `obs` fields only) -/
@@ -374,6 +419,23 @@ example : Sim (World.fresh.run (sampleHistory ++ [.reinit])) (World.fresh.run [.
 example : ¬ Sim (World.fresh.run [.init .x64, .attach 0, .raw 0 [144]]) (World.fresh.run [.init .x64, .attach 0]) := by decide
 example : ¬ Sim (World.fresh.run [.init .x64, .attach 0, .opt 0 optShort]) (World.fresh.run [.init .x64, .attach 0]) := by decide
 example : ¬ Sim (World.fresh.run [.init .x64, .attach 3, .jann 3]) (World.fresh.run [.init .x64, .attach 3]) := by decide
+
+-- AArch64 emitters: a history with b-fixups, a relocation, Builder nodes, then reset / reinit
+def sampleHistoryA64 : List Op :=
+  [.world true, .init .a64, .attach 0, .attach 2, .attach 3, .label 0, .jmp 0 0, .raw 0 [31, 32, 3, 213], .elabel 0 0 8,
+   .label 2, .jmp 2 1, .bind 2 1, .finalize 2, .vreg 3, .jann 3, .opt 0 optShort]
+example : (World.fresh.run sampleHistoryA64).h.unres = 2 ∧ (World.fresh.run sampleHistoryA64).h.relocs.length = 1 ∧
+    ¬ Sim (World.fresh.run sampleHistoryA64) World.freshA64 := by decide
+example : Sim ((World.fresh.run sampleHistoryA64).reset false) World.freshA64 := by decide
+example : Sim (World.fresh.run (sampleHistoryA64 ++ [.reinit])) (World.freshA64.run [.init .a64, .attach 0, .attach 2, .attach 3]) := by decide
+-- x86 emitters refuse an AArch64 holder and vice versa
+example : (World.fresh.run [.init .a64]).attach 0 = (World.fresh.run [.init .a64], "InvalidArch") := by decide
+-- a bound backward branch is encoded, a misaligned one is refused
+example : ((World.freshA64.run [.init .a64, .attach 0, .label 0, .bind 0 0, .raw 0 [0, 0, 0, 0], .jmp 0 0]).h.secBytes 0) =
+    [0, 0, 0, 0, 255, 255, 255, 23] := by decide
+
+#guard noDeadRefs "code|x64;E3=[1:0:nodes-:vr3:ja0:fn0:pd2:wr0]|aux|" == some "pd (nodes still pointing into the reset pass arena)"
+#guard noDeadRefs "code|x64;E3=[1:0:nodes-:vr3:ja0:fn0:pd0:wr0]|aux|" == none
 
 -- the monitor accepts equal outputs and names the component that differs
 #guard noResidue "code|x64;secs=[0:aa];unres=0|aux|hlog=1" "code|x64;secs=[0:aa];unres=0|aux|hlog=0" == none
